@@ -156,10 +156,17 @@ class AwaitCtl:
             from .contracts import eval_clause
 
             b = dict(self.bindings)
-            try:
-                ctx.assume(_z(eval_clause(I, lam, _sel(lam, b), old_view=I.entry_old_view)))
-            except Unsupported:
-                raise
+            e_ = getattr(I, "_await_env", None)
+            chain = []
+            while e_ is not None:
+                chain.append(e_.vars)
+                e_ = e_.parent
+            for vars_ in reversed(chain):
+                b.update(vars_)
+            names_ = lam.__code__.co_varnames[: lam.__code__.co_argcount]
+            if any(n_ not in b and n_ != "old" for n_ in names_):
+                continue  # speaks about a local that does not exist yet at this suspension
+            ctx.assume(_z(eval_clause(I, lam, _sel(lam, b), old_view=pre_view)))
 
     def maybe_interrupted(self, I, what):
         """Outcomes that interrupt any suspended await: task cancellation and an enclosing timeout."""
